@@ -29,12 +29,23 @@ func checkC14Cfg(c c14CfgCase) verdict {
 	if (e1 == nil) != want || (e2 == nil) != want || (e3 == nil) != want {
 		return bad(true, labels, "suite %+v: usable by the rule = %v, but SuiteConfig.Validate=%v NewSuite=%v RawSuite.Validate=%v", c.Cfg, want, e1, e2, e3)
 	}
-	// an unusable suite must also be refused by generation (it gates all table indexing)
-	if !want {
-		in := otp.OCRAInput{Counter: make([]byte, 8), Challenge: make([]byte, 16), Password: make([]byte, ref.PLen(maxI(c.Cfg.PHash, 1))), Timestamp: make([]byte, 8)}
-		if code, err := otp.GenerateOCRA("MFRGGZDFMZTWQ2LK", lc, in); err == nil {
-			return bad(true, labels, "GenerateOCRA produced %q for the unusable suite %+v", code, c.Cfg)
+	// generation and validation must agree with the rule as well (the suite check gates all table
+	// indexing): a usable suite generates and validates with an admissible input, an unusable one is
+	// refused — whatever was used before (all configurations here share one suite string)
+	in := otp.OCRAInput{Counter: make([]byte, 8), Challenge: make([]byte, 16), Password: make([]byte, ref.PLen(maxI(c.Cfg.PHash, 1))), Timestamp: make([]byte, 8)}
+	code, gerr := otp.GenerateOCRA("MFRGGZDFMZTWQ2LK", lc, in)
+	if want && (gerr != nil || len(code) != c.Cfg.Digits) {
+		return bad(true, labels, "GenerateOCRA refused the usable suite %+v with an admissible input: %q, %v", c.Cfg, code, gerr)
+	}
+	if !want && gerr == nil {
+		return bad(true, labels, "GenerateOCRA produced %q for the unusable suite %+v", code, c.Cfg)
+	}
+	if want {
+		if okk, verr := otp.ValidateOCRA("MFRGGZDFMZTWQ2LK", code, lc, in); !okk || verr != nil {
+			return bad(true, labels, "ValidateOCRA rejects the code just generated for the usable suite %+v: %v", c.Cfg, verr)
 		}
+	} else if okk, verr := otp.ValidateOCRA("MFRGGZDFMZTWQ2LK", "000000", lc, in); okk || verr == nil || errors.Is(verr, otp.ErrInvalidCode) {
+		return bad(true, labels, "ValidateOCRA answered (%v, %v) for the unusable suite %+v; want a suite error", okk, verr, c.Cfg)
 	}
 	return ok(true, labels...)
 }
